@@ -752,6 +752,141 @@ fn exec<V: Val, A: Auto<V>>(c: &Case, vals: &[V], rng: &mut Rng, out: &mut Out) 
     out.line(&format!("DS {} {} {} {} {}", flags[0], flags[1], flags[2], flags[3], hex(&trail)));
 }
 
+
+// ---------------------------------------------------------------------------------------------
+// Synthetic images: `deserialize_unchecked` / `serialize` on arbitrary well-formed automaton
+// values (not only built ones).  Nothing is searched; only the codec is exercised.
+// ---------------------------------------------------------------------------------------------
+
+macro_rules! synth_dispatch {
+    ($vt:expr, $f:ident, $($name:literal => $t:ty),*) => {
+        match $vt { $($name => $f::<$t>,)* _ => $f::<u32> }
+    };
+}
+
+fn le32(v: &mut Vec<u8>, x: u32) {
+    v.extend_from_slice(&x.to_le_bytes());
+}
+
+/// A field value biased towards the extremes of its width.
+fn field(r: &mut Rng, bits: u32) -> u32 {
+    let max = if bits >= 32 { u32::MAX } else { (1u32 << bits) - 1 };
+    match r.below(8) {
+        0 => 0,
+        1 => max,
+        2 => max - (r.below(3) as u32).min(max),
+        3 => 1u32 << r.below(bits as usize),
+        4 => (1u32 << r.below(bits as usize)).wrapping_sub(1),
+        _ => (r.next() as u32) & max,
+    }
+}
+
+fn synth<V: Val, A: Auto<V>>(id: &str, variant: char, vt: &str, r: &mut Rng, out: &mut Out) {
+    let width = V::serialized_bytes();
+    let ns = r.below(7);
+    let no = r.below(6);
+    let mut img = Vec::new();
+    le32(&mut img, ns as u32);
+    for _ in 0..ns {
+        if variant == 'B' {
+            le32(&mut img, field(r, 32));
+            le32(&mut img, field(r, 32));
+            le32(&mut img, (field(r, 24) << 8) | field(r, 8));
+        } else {
+            for _ in 0..4 {
+                le32(&mut img, field(r, 32));
+            }
+        }
+    }
+    if variant == 'C' {
+        let nt = r.below(6);
+        le32(&mut img, nt as u32);
+        for _ in 0..nt {
+            le32(&mut img, field(r, 32));
+        }
+        le32(&mut img, field(r, 32));
+    }
+    le32(&mut img, no as u32);
+    for _ in 0..no {
+        for _ in 0..width {
+            img.push(match r.below(4) { 0 => 0, 1 => 0xFF, 2 => 0x80, _ => r.below(256) as u8 });
+        }
+        le32(&mut img, field(r, 32));
+        le32(&mut img, field(r, 32));
+    }
+    img.push(r.below(3) as u8);
+    le32(&mut img, field(r, 32));
+    let trail: Vec<u8> = (0..r.below(5)).map(|_| r.below(256) as u8).collect();
+    synth_exec::<V, A>(id, variant, vt, &img, &trail, out);
+}
+
+fn synth_exec<V: Val, A: Auto<V>>(id: &str, variant: char, vt: &str, img: &[u8], trail: &[u8], out: &mut Out) {
+    out.line(&format!("SYC {} {} {}", id, variant, vt));
+    out.line(&format!("SYI {}", hex(img)));
+    out.line(&format!("SYT {}", hex(trail)));
+    let mut full = img.to_vec();
+    full.extend_from_slice(trail);
+    let res = guard(|| {
+        let (a, rest) = A::deser(&full);
+        let rest_ok = rest == trail;
+        let raw = a.raw();
+        let reser = a.ser() == img;
+        (raw, rest_ok, reser)
+    });
+    match res {
+        None => out.line("SYR PANIC"),
+        Some((raw, rest_ok, reser)) => {
+            out.line(&format!("SYK {} {}", raw.match_kind, raw.num_states));
+            let st: Vec<String> = raw.states.iter().map(|s| format!("{},{},{},{}", s.base, s.check, s.fail, s.output_pos)).collect();
+            out.line(&format!("SYST {} {}", st.len(), st.join(" ")).trim_end().to_string());
+            let ou: Vec<String> = raw.outputs.iter().map(|o| format!("{},{},{}", o.value.to_dec(), o.length, o.parent)).collect();
+            out.line(&format!("SYOU {} {}", ou.len(), ou.join(" ")).trim_end().to_string());
+            if variant == 'C' {
+                let mp: Vec<String> = raw.mapper_table.iter().map(|x| x.to_string()).collect();
+                out.line(&format!("SYMP {} {}", raw.alphabet_size, mp.join(" ")).trim_end().to_string());
+            }
+            out.line(&format!("SYR {} {}", rest_ok as u8, reser as u8));
+        }
+    }
+    out.line("SYEND");
+}
+
+fn synth_exec_typed<V: Val>(id: &str, variant: char, vt: &str, img: &[u8], trail: &[u8], out: &mut Out) {
+    if variant == 'B' {
+        synth_exec::<V, BAuto<V>>(id, variant, vt, img, trail, out)
+    } else {
+        synth_exec::<V, CAuto<V>>(id, variant, vt, img, trail, out)
+    }
+}
+
+/// Replays one synthetic image (records `SYC` / `SYI` / `SYT` of a replay file).
+fn synth_replay(id: &str, variant: char, vt: &str, img: &[u8], trail: &[u8], out: &mut Out) {
+    let f = synth_dispatch!(vt, synth_exec_typed,
+        "u8" => u8, "u16" => u16, "u32" => u32, "u64" => u64, "u128" => u128, "usize" => usize,
+        "i8" => i8, "i16" => i16, "i32" => i32, "i64" => i64, "i128" => i128, "isize" => isize,
+        "empty" => Empty, "w3" => W3);
+    f(id, variant, vt, img, trail, out);
+}
+
+
+fn synth_typed<V: Val>(id: &str, variant: char, vt: &str, r: &mut Rng, out: &mut Out) {
+    if variant == 'B' {
+        synth::<V, BAuto<V>>(id, variant, vt, r, out)
+    } else {
+        synth::<V, CAuto<V>>(id, variant, vt, r, out)
+    }
+}
+
+fn synth_case(n: usize, r: &mut Rng, out: &mut Out) {
+    let vt = gen::VTYPES[n % gen::VTYPES.len()];
+    let variant = if (n / gen::VTYPES.len()) % 2 == 0 { 'B' } else { 'C' };
+    let f = synth_dispatch!(vt, synth_typed,
+        "u8" => u8, "u16" => u16, "u32" => u32, "u64" => u64, "u128" => u128, "usize" => usize,
+        "i8" => i8, "i16" => i16, "i32" => i32, "i64" => i64, "i128" => i128, "isize" => isize,
+        "empty" => Empty, "w3" => W3);
+    f(&format!("y{}", n), variant, vt, r, out);
+}
+
 fn permutations(idx: &mut Vec<usize>, k: usize, acc: &mut Vec<Vec<usize>>) {
     if k == idx.len() {
         acc.push(idx.clone());
@@ -856,6 +991,7 @@ fn run_case(c: &Case, out: &mut Out) {
 fn replay(path: &str, out: &mut Out) -> Result<(), String> {
     let text = std::fs::read_to_string(path).map_err(|e| format!("cannot read {}: {}", path, e))?;
     let mut cur: Option<Case> = None;
+    let mut syn: Option<(String, char, String, Vec<u8>)> = None;
     for (ln, line) in text.lines().enumerate() {
         let line = line.trim_end_matches('\r');
         let t: Vec<&str> = line.split(' ').collect();
@@ -906,6 +1042,23 @@ fn replay(path: &str, out: &mut Out) -> Result<(), String> {
                     run_case(&c, out);
                 }
             }
+            "SYC" if t.len() == 4 => {
+                syn = Some((t[1].to_string(), t[2].chars().next().unwrap_or('B'), t[3].to_string(), vec![]));
+            }
+            "SYI" if t.len() == 2 => {
+                if let (Some(x), Some(b)) = (&mut syn, unhex(t[1])) {
+                    x.3 = b;
+                }
+            }
+            "SYT" if t.len() == 2 => {
+                if let (Some((id, v, vt, img)), Some(trail)) = (syn.take(), unhex(t[1])) {
+                    if gen::VTYPES.contains(&vt.as_str()) {
+                        synth_replay(&id, v, &vt, &img, &trail, out);
+                    } else {
+                        bad(out);
+                    }
+                }
+            }
             _ => {} // blank lines, comments, output records
         }
     }
@@ -941,10 +1094,17 @@ fn main() {
                 }
                 i += 2;
             }
-            if i != args.len() || !gen::PROFILES.contains(&profile.as_str()) {
+            if i != args.len() || !(gen::PROFILES.contains(&profile.as_str()) || profile == "synth") {
                 usage();
             }
             let mut rng = Rng::new(seed);
+            if profile == "synth" {
+                for n in 0..cases {
+                    synth_case(n, &mut rng, &mut out);
+                }
+                out.flush();
+                return;
+            }
             let (mut emitted, mut item) = (0, 0);
             while emitted < cases {
                 let cs = gen::item(&profile, &mut rng, item);
